@@ -98,12 +98,14 @@ pub fn generate(seed: u64, tier: Tier) -> History {
         Tier::Quick => (5, 10, 7),
         Tier::Thorough => (8, 40, 10),
     };
-    let n_notes = swarm.range(1, max_notes);
+    // now and then a library large enough for the result limits (100 search hits) and rank ties to matter
+    let big_library = swarm.chance(1, 150);
+    let n_notes = if big_library { swarm.range(40, 130) } else { swarm.range(1, max_notes) };
     let n_future = swarm.range(0, 2);
     let with_dirs = swarm.chance(1, 3);
     let refs_ext = format!("{}{}", if swarm.chance(1, 4) { ".md" } else { "" }, *swarm.pick(&["", "", "", "|helix", "|models", "|helix+models"]));
     let marathon = swarm.chance(1, if tier == Tier::Thorough { 40 } else { 300 });
-    let n_ops = if marathon { swarm.range(120, 320) } else { swarm.range(1, max_ops) };
+    let n_ops = if marathon && !big_library { swarm.range(120, 320) } else if big_library { swarm.range(1, 5) } else { swarm.range(1, max_ops) };
     let poison_pct = *swarm.pick(&[0u32, 0, 0, 4, 8]);
     let restart_pct = *swarm.pick(&[0u32, 0, 5, 10, 25]);
     let save_pct = *swarm.pick(&[0u32, 10, 30]);
@@ -121,7 +123,7 @@ pub fn generate(seed: u64, tier: Tier) -> History {
     let lib_keys: Vec<String> = all_keys[..n_notes].to_vec();
     let mut targets = all_keys.clone();
     targets.push("zz".to_string());
-    let cfg = GenCfg { keys: lib_keys.clone(), targets, max_blocks: if marathon { 4 } else { swarm.range(2, max_blocks) }, max_depth: 3 };
+    let cfg = GenCfg { keys: lib_keys.clone(), targets, max_blocks: if marathon || big_library { 3 } else { swarm.range(2, max_blocks) }, max_depth: 3 };
     if marathon {
         probes_init.push("marathon-history".to_string());
     }
